@@ -12,7 +12,7 @@ RULE = ("32-byte seeds (RFC 8032 section 7.1 vectors, all-zero / all-ones, seede
         "transcription of RFC 8032; every conversion path among bytes / hex / key objects; key files; equivalence laws; malformed encodings "
         "(every wrong length around 32/64, case, whitespace, every other kind).  non-trivial = a seed/message pair; distinct by (seed, message)")
 
-THEOREMS = ["hex_roundtrip", "bytes_roundtrip", "from_hex_to_hex", "from_hex_rejects", "from_bytes_rejects_length", "equivalence_laws", "signing_key_hex", "keyfiles_roundtrip", "keyfiles_reject_length"]
+THEOREMS = ["hex_roundtrip", "bytes_roundtrip", "from_hex_to_hex", "from_hex_rejects", "from_bytes_rejects_length", "equivalence_laws", "signing_key_hex", "keyfiles_roundtrip", "keyfiles_reject_length", "reference_strict"]
 
 # RFC 8032 section 7.1 (secret key, public key, message, signature)
 RFC8032 = [
@@ -81,6 +81,19 @@ def run(ck: Check) -> None:
             bad[rng.randrange(64)] ^= 1 << rng.randrange(8)
             lines.append(f"prim verify x{pub.hex()} x{m.hex()} x{bytes(bad).hex()}")
             expect.append(("verify-bad", seed, m, "F"))
+            # the scalar half of the signature plus the group order (the classic second encoding of "the same" signature): RFC 8032 demands S < L, the
+            # reference refuses it (Ref/Laws.lean: ref_verify_rejects_unreduced_scalar) — the library's verdict, whatever it is, is compared with the reference's
+            L_ = 2 ** 252 + 27742317777372353535851937790883648493
+            s2 = int.from_bytes(sig[32:], "little") + L_
+            if s2 < 2 ** 256:
+                sig2 = sig[:32] + s2.to_bytes(32, "little")
+                try:
+                    k.public_key().verify(sig2, m)
+                    lib = "T"
+                except Exception:  # noqa: BLE001
+                    lib = "F"
+                lines.append(f"prim verify x{pub.hex()} x{m.hex()} x{sig2.hex()}")
+                expect.append(("verify-scalar-plus-order", seed, m, lib))
             ck.nontrivial_add((seed, m))
     # SHA-256 / digest construction
     for _ in range(60):
